@@ -135,6 +135,18 @@ Theorem C13_no_panic_rand_string :
 Proof. exact rand_string_alloc_safe. Qed.
 Print Assumptions C13_no_panic_rand_string.
 
+(* templater.randInt: for all int64 arguments no panic; a value is between the bounds (an empty
+   range is that number, (0,0) means 0..9, a width beyond int64 is an error) *)
+Theorem C13_no_panic_rand_int :
+  forall f t, (min_int <= f <= max_int)%Z -> (min_int <= t <= max_int)%Z ->
+    match rand_int_range f t with
+    | VPanic => False
+    | VErr => True
+    | VOk (lo, w) => (0 < w /\ Z.min f t <= lo /\ lo + w - 1 <= Z.max (Z.max f t) 10)%Z
+    end.
+Proof. exact rand_int_range_safe. Qed.
+Print Assumptions C13_no_panic_rand_int.
+
 (* MultiPassReader: a Read that returns (0, nil) is always followed by a Read that returns data
    or io.EOF: consumers cannot spin *)
 Theorem C13_multipass_progress :
